@@ -383,6 +383,9 @@ func (r *Rec) resolve(g int64, proc, label string, args []interface{}) (Event, b
 			ev.L = "c_funlock"
 		case "uf.locked":
 			ev.L, ev.Ok = "u_lock", boolArg(args, 1)
+			if t := r.sub(args, 0); c != nil && t != 0 && t != c.sub { // another client's filter id
+				ev.L, ev.Sub = "xu_lock", t
+			}
 		case "gfc.locked":
 			ev.L = "g_lock"
 		case "gfc.unlock":
